@@ -1,21 +1,21 @@
 CONSTANTS
-  NK = 6
-  NV = 2
-  MaxVer = 8
-  MaxLen = 40
+  NK = 1500
+  NV = 3
+  MaxVer = 16
+  MaxLen = 400
   NR = 2
   Impl = "bptree"
-  SmallTree = TRUE
-  Opts <- OptsAll
+  SmallTree = FALSE
+  Opts <- OptsC24
   Reads = TRUE
-  BadArgs = TRUE
-  SvAlways = TRUE
+  BadArgs = FALSE
+  SvAlways = FALSE
   Quiet = FALSE
-  FillSizes <- FillMid
-  Scripts <- NoScripts
+  FillSizes <- FillHuge
+  Scripts <- ScriptsFromFile
 INIT Init
-NEXT NextSimF
+NEXT NextScriptStop
 VIEW View
 INVARIANTS TypeOK Contig WorkingRetained ReadersRetained CleanIsSaved NotRetainedIsBlank HkFunctional
 PROPERTIES SavedImmutable PruneKeepsRetained OnlyNext SessionDrop
-INVARIANT EmitAtEnd
+INVARIANT EmitScript
